@@ -35,6 +35,20 @@ TWINS["callgraph"] = [("find_call_sequences", "c24.calls")]
 
 TWINS["mem_region"] = [("MemRegion", "c05.ops"), ("merge_or_merge_with_top", "c05.ops"), ("compute_range_end", "c05.ops"), ("Inner", "c05.ops")]
 
+TWINS["interval_base"] = [("Interval::add", "c02.add"), ("Interval::contains", "c02.contains"), ("Interval::is_top", "c02.new"), ("Interval::new_top", "c02.new")]
+TWINS["interval_arith"] = [("Interval::sub", "c02.sub"), ("Interval::signed_mul", "c02.signed_mul"), ("Interval::int_2_comp", "c02.int_2_comp"), ("Interval::bitwise_not", "c02.bitwise_not"),
+    ("Interval::adjust_end_to_value_in_stride", "c02.adjust_end"), ("Interval::adjust_start_to_value_in_stride", "c02.adjust_start"), ("Interval::new", "c02.new"), ("Interval::signed_merge", "c03.interval_merge")]
+TWINS["interval_bits"] = [("Interval::adjust_to_stride_and_remainder", "c02.adjust_to_stride_and_remainder"), ("Interval::zero_extend", "c02.zero_extend"), ("Interval::subpiece_higher", "c02.subpiece_higher"),
+    ("Interval::subpiece_lower", "c02.subpiece_lower"), ("Interval::subpiece", "c02.subpiece"), ("Interval::piece", "c02.piece")]
+TWINS["interval_intersect"] = [("extended_gcd", "c04.interval_intersect"), ("compute_intersection_residue_class", "c04.interval_intersect"), ("Interval::signed_intersect", "c04.interval_intersect")]
+TWINS["interval_domain"] = [("IntervalDomain::add_signed_less_equal_bound", "c04.sle"), ("IntervalDomain::add_signed_greater_equal_bound", "c04.sge"), ("IntervalDomain::add_unsigned_less_equal_bound", "c04.ule"),
+    ("IntervalDomain::add_unsigned_greater_equal_bound", "c04.uge"), ("IntervalDomain::add_not_equal_bound", "c04.ne"), ("IntervalDomain::intersect", "c04.intersect"),
+    ("Bitvector::round_up_to_stride_of", "c04.sge"), ("Bitvector::round_down_to_stride_of", "c04.sle"),
+    ("IntervalDomain::signed_merge", "c03.domain_merge"), ("IntervalDomain::merge", "c03.domain_merge"), ("IntervalDomain::update_widening", "c03.domain_merge"), ("IntervalDomain::new", "c02.domain_cast")]
+TWINS["interval_domain_ops"] = [("IntervalDomain::bin_op", "c02.domain_bin_op"), ("IntervalDomain::un_op", "c02.domain_un_op"), ("IntervalDomain::cast", "c02.domain_cast"), ("IntervalDomain::subpiece", "c02.domain_subpiece"),
+    ("IntervalDomain::add", "c02.domain_bin_op"), ("IntervalDomain::sub", "c02.domain_bin_op"), ("IntervalDomain::signed_mul", "c02.domain_bin_op"), ("IntervalDomain::shift_left", "c02.domain_bin_op"),
+    ("IntervalDomain::piece", "c02.domain_bin_op"), ("IntervalDomain::zero_extend", "c02.domain_cast"), ("IntervalDomain::sign_extend", "c02.domain_cast")]
+
 PROPS = {
     "C01": {
         "units": ["bitvector"],
@@ -171,6 +185,36 @@ PROPS = {
                      'R9: contracts of BTreeMap::range(..hi).last(), range(lo..hi) front to back, range(lo..).next() in shim/mem_region.rs (std documentation); vstd BTreeMap specifications',
                      'derive(PartialEq, Eq, Clone) of MemRegion restated as external_body glue in contracts/mem_region.vc',
                      '64-bit target (usize = u64)']},
+    "C02": {
+        "units": ["bitvector", "interval_base", "interval_arith", "interval_bits", "interval_domain"],  # + "interval_domain_ops" once closed
+        "level_text": "Every Interval transfer function of simple_interval.rs (new, new_top, is_top, add, sub, signed_mul, int_2_comp, bitwise_not, zero_extend, subpiece_higher, subpiece_lower, subpiece, piece, adjust_end/start_to_value_in_stride, adjust_to_stride_and_remainder, contains) and the IntervalDomain layer (interval.rs, bin_ops.rs) is extracted verbatim from /repo on each run and verified by Verus against gamma/inv written from the property: the result is well-formed (start <= end, end on the stride, stride 0 exactly for singletons, widths as P-Code prescribes) and contains op(x, y) for all members x, y of the inputs, for every value and every stride with no enumeration. Unbounded in values; widths as stated per function (all widths for add/sub/neg/not/subpiece/piece/zero_extend, <= 8 bytes where the code itself switches to i64/i128 arithmetic).",
+        "level_note": "Machine-arithmetic preconditions (listed per function in the evidence): `(end - start) as u64` computed on i64 in adjust_* needs stride >= 2 ==> end - start <= i64::MAX (8-byte intervals with stride >= 2 spanning more than half the range; panics in debug builds, wraps correctly in release); new/adjust_* exactness only for widths <= 64 bit. Trusted: apint and gcd contracts, vstd bit-count specs, restated derives. IntervalDomain-level functions are in unit interval_domain_ops; functions it does not cover are listed under not_covered in the evidence.",
+        "design_ref": "DESIGN.md section 3 (C02)",
+        "default_twins": ["c02.add", "c02.sub", "c02.signed_mul", "c02.zero_extend", "c02.piece", "c02.domain_bin_op"],
+        "sweep_twins": ["c02.add", "c02.sub", "c02.signed_mul", "c02.int_2_comp", "c02.bitwise_not", "c02.zero_extend", "c02.subpiece_higher", "c02.subpiece_lower", "c02.subpiece", "c02.piece", "c02.new", "c02.adjust_end", "c02.adjust_start", "c02.adjust_to_stride_and_remainder", "c02.contains", "c02.domain_bin_op", "c02.domain_un_op", "c02.domain_cast", "c02.domain_subpiece"],
+        "not_covered": ["Display / serde impls", "std::ops::{Add,Sub,Neg} wrappers of IntervalDomain (thin delegations)"],
+        "assumptions": ['apint 0.2.0 contracts (shim/apint.rs, shim/apint_ops.rs) and the gcd crate contract (shim/gcd.rs: returns the mathematical gcd; its divisibility properties are proved)', "vstd's specifications of u64::trailing_zeros / leading_zeros (assume_specification + axioms shipped with vstd)", 'derive-generated PartialEq/Clone of Interval, IntervalDomain, BitvectorDomain restated as structural equality / copy', 'rule R5 (a failing assert!/expect diverges); 64-bit usize; bit widths multiples of 8 (byte_w)'] + ["machine arithmetic: stride >= 2 ==> end - start <= i64::MAX in adjust_end/adjust_start/new (i64 subtraction); exactness of new/adjust_* for widths <= 64 bit"],
+    },
+    "C03": {
+        "units": ["bitvector", "interval_arith", "interval_domain", "mem_region"],
+        "level_text": "BitvectorDomain::merge, Interval::signed_merge, IntervalDomain::{signed_merge, signed_merge_and_widen, merge} are extracted verbatim and verified: the merge is well-formed, represents every value represented by either input, and is stable -- when one input's value set contains the other's, the result represents exactly that input (for the widening merge: no widening happens, proved via canonicity of intervals), for every pair of values of the same width (<= 8 bytes for the stability clauses). MemRegion::merge/merge_inner is verified against the property's cell rule (unit mem_region, see C05).",
+        "level_note": "Not covered (closure-based BTreeMap entry/retain APIs over generic value domains, string-keyed identifiers): DataDomain::merge, the Union/Intersect/MergeTop DomainMap strategies, Taint merge; the trait default AbstractDomain::merge_with (compares &mut Self with &Self through core's reference PartialEq impl, no vstd spec). The claim is for the bitvector, interval and memory-region kinds. Widening needs the machine-arithmetic side conditions merge_span <= i64::MAX when the merged stride is >= 2 and widening_delay <= i64::MAX (8-byte values only). Observation outside the quantifier: Interval::signed_merge is not stable for widths above 64 bit (start distance >= 2^64 resets the stride to 1).",
+        "design_ref": "DESIGN.md section 3 (C03)",
+        "default_twins": ["c03.interval_merge", "c03.domain_merge", "c03.bitvector_merge"],
+        "sweep_twins": ["c03.interval_merge", "c03.domain_merge", "c03.bitvector_merge"],
+        "not_covered": ["DataDomain::merge (data/trait_impl.rs)", "DomainMap Union/Intersect/MergeTop strategies (domain_map.rs)", "Taint::merge (analysis/taint/mod.rs)", "AbstractDomain::merge_with (trait default; &mut Self vs &Self comparison has no vstd spec)"],
+        "assumptions": ['apint 0.2.0 contracts (shim/apint.rs, shim/apint_ops.rs) and the gcd crate contract (shim/gcd.rs: returns the mathematical gcd; its divisibility properties are proved)', "vstd's specifications of u64::trailing_zeros / leading_zeros (assume_specification + axioms shipped with vstd)", 'derive-generated PartialEq/Clone of Interval, IntervalDomain, BitvectorDomain restated as structural equality / copy', 'rule R5 (a failing assert!/expect diverges); 64-bit usize; bit widths multiples of 8 (byte_w)'] + ["machine arithmetic in signed_merge_and_widen: merged stride >= 2 ==> span of bounds and hints <= i64::MAX; widening_delay <= i64::MAX", "stability clauses of the interval merges for widths <= 64 bit"],
+    },
+    "C04": {
+        "units": ["interval_bits", "interval_intersect", "interval_domain"],
+        "level_text": "SpecializeByConditional for IntervalDomain (add_signed_less_equal_bound, add_signed_greater_equal_bound, add_unsigned_less_equal_bound, add_unsigned_greater_equal_bound, add_not_equal_bound, intersect, without_widening_hints), StrideRounding::{round_up_to_stride_of, round_down_to_stride_of}, Interval::signed_intersect, compute_intersection_residue_class (Chinese remainder computation), extended_gcd and adjust_to_stride_and_remainder are extracted verbatim and verified for every value, bound and stride of widths up to 8 bytes: Ok(r) keeps every member of the input that satisfies the condition (and adds none), Err is returned only when no member satisfies it.",
+        "level_note": "Machine-arithmetic preconditions: `narrow` (stride >= 2 ==> end - start <= i64::MAX) for the bound functions; for intersect of 33..64 bit wide values lcm(stride_left, stride_right) <= u64::MAX (otherwise the i128 CRT arithmetic overflows and the code returns an error that callers read as 'unsatisfiable' -- observation, outside the precondition). Not covered: SpecializeByConditional for DataDomain (generic wrappers with closures over Option::and_then(..).ok()).",
+        "design_ref": "DESIGN.md section 3 (C04)",
+        "default_twins": ["c04.sle", "c04.sge", "c04.ule", "c04.uge", "c04.ne", "c04.intersect", "c04.interval_intersect"],
+        "sweep_twins": ["c04.sle", "c04.sge", "c04.ule", "c04.uge", "c04.ne", "c04.intersect", "c04.interval_intersect"],
+        "not_covered": ["SpecializeByConditional for DataDomain (data/conditional_specialization.rs)"],
+        "assumptions": ['apint 0.2.0 contracts (shim/apint.rs, shim/apint_ops.rs) and the gcd crate contract (shim/gcd.rs: returns the mathematical gcd; its divisibility properties are proved)', "vstd's specifications of u64::trailing_zeros / leading_zeros (assume_specification + axioms shipped with vstd)", 'derive-generated PartialEq/Clone of Interval, IntervalDomain, BitvectorDomain restated as structural equality / copy', 'rule R5 (a failing assert!/expect diverges); 64-bit usize; bit widths multiples of 8 (byte_w)'] + ["machine arithmetic: narrow() on the refined value; lcm of the strides <= u64::MAX for 33..64 bit wide intersections", "widths <= 64 bit"],
+    },
 }
 
 
